@@ -4,7 +4,7 @@ from ..engines import solver
 
 PROP = "C06"
 BUDGET = {"quick": 2400, "thorough": 50000}
-ALARM_S = 900
+ALARM_S = 300
 RULE = ("catalogue and bounded random models x theta x observation grid (3-12 points, mostly non-uniform) x 1-3 observed "
         "states in any order x five loss classes with scalar / per-observation spread x weights (non-unit for Square/Normal) "
         "x target_param subsets in any order x target_state subsets; one or two loss objects and the model owner interleaved "
